@@ -247,3 +247,36 @@ def dat_decimals(path):
             if l.strip() and not l.lstrip().startswith("#"):
                 return min(len(x) for x in re.findall(r"\.(\d+)", l))
     return None
+
+
+def run_script(module, argv, cwd):
+    """One of the other console scripts (phonopy.scripts.<module>.run) exactly as its entry point
+    starts it.  Returns dict(code, exc, stdout, written)."""
+    import importlib
+
+    mod = importlib.import_module("phonopy.scripts." + module)
+    before = _snapshot(cwd)
+    old_cwd, old_argv = os.getcwd(), sys.argv
+    out = io.StringIO()
+    code, exc = None, None
+    os.chdir(cwd)
+    sys.argv = [module.replace("_", "-")] + [str(a) for a in argv]
+    try:
+        with contextlib.redirect_stdout(out), contextlib.redirect_stderr(out):
+            try:
+                mod.run()
+                code = 0
+            except SystemExit as e:
+                code = e.code if isinstance(e.code, int) else (0 if e.code is None else 1)
+            except Exception as e:  # noqa: BLE001
+                import traceback
+
+                exc = "%s: %s" % (type(e).__name__, e)
+                out.write(traceback.format_exc())
+                code = -1
+    finally:
+        os.chdir(old_cwd)
+        sys.argv = old_argv
+    after = _snapshot(cwd)
+    written = sorted(f for f in after if before.get(f) != after[f])
+    return dict(code=code, exc=exc, stdout=out.getvalue(), written=written)
